@@ -88,6 +88,7 @@ func (t *Trans) cbRefine(fr *Frame, cb *Contract, av ssa.Value, label string, po
 	}
 	mkCtx := func(S State, old State, c *Contract) (*SpecCtx, []string) {
 		sc := &SpecCtx{t: t, st: S, old: old, names: map[string]specVal{}, callerFr: fr}
+		sc.names["self"] = specVal{fr.val(av), nil}
 		names, ptypes := sigNames(sig, c)
 		var consts []string
 		for i, n := range names {
@@ -122,6 +123,7 @@ func (t *Trans) cbRefine(fr *Frame, cb *Contract, av ssa.Value, label string, po
 			hyps = append(hyps, cbSc.expandBool(r.Expr))
 		}
 		gSc := &SpecCtx{t: t, st: S, old: S, names: map[string]specVal{}, callerFr: fr}
+		gSc.names["self"] = specVal{fr.val(av), nil}
 		for i, p := range g.Params {
 			if i < len(consts) {
 				gSc.names[p.Name()] = specVal{consts[i], p.Type()}
